@@ -273,6 +273,7 @@ class P:
                 self.items(sub, until='}')
                 self.eat('}')
                 out['impl'].setdefault(target, {}).update(sub['fn'])
+                out.setdefault('sigs', {}).setdefault(target, {}).update(sub.get('sig', {}))
                 continue
             if t == 'fn':
                 self.next()
@@ -281,6 +282,7 @@ class P:
                     self.skip_generics()
                 self.eat('(')
                 params = []
+                ptypes = []
                 while not self.opt(')'):
                     if self.peek() in ('&', 'mut'):
                         self.next()
@@ -289,10 +291,14 @@ class P:
                         self.next()
                         continue
                     p = self.next()
+                    ty = []
                     if self.opt(':'):
+                        j = self.i
                         self.skip_type([',', ')'])
+                        ty = [x[1] for x in self.t[j:self.i]]
                     self.opt(',')
                     params.append(p)
+                    ptypes.append((p, ty))
                 if self.opt('->'):
                     self.skip_type(['{', 'where', ';'])
                 if self.peek() == 'where':
@@ -302,6 +308,7 @@ class P:
                 j = self.i
                 self.skip_braced()
                 out['fn'][name] = (params, self.t[j:self.i])
+                out.setdefault('sig', {})[name] = ptypes
                 continue
             if t in ('mod', 'use', 'macro_rules', 'const', 'type', 'static', 'trait', 'extern'):
                 # skip to `;` or over a braced body
@@ -545,6 +552,9 @@ class P:
                     pats.append(self.pattern())
                 self.eat('=>')
                 body = self.expr()
+                if self.opt('='):
+                    # `pat => place = value,` : an assignment as the arm's body
+                    body = ('block', [('assign', body, self.expr())])
                 self.opt(',')
                 arms.append((pats, body))
             return ('match', scrut, arms)
@@ -1116,10 +1126,16 @@ class Interp:
             # the plan must not depend on it: both branches are run and must be free of effects
             n_acts = len(self.acts) + len(self.hal_ops)
             snap = self.snapshot(env)
-            self.exec_block(e[2], env, False)
-            if e[3]:
-                self.restore(snap, env)
-                self.exec_block(e[3], env, False)
+            try:
+                r1 = self.exec_block(e[2], env, False)
+                r2 = None
+                if e[3]:
+                    self.restore(snap, env)
+                    r2 = self.exec_block(e[3], env, False)
+            except EarlyRet:
+                raise HardUnsupported('an early return depends on data read from the device / on the register accessed')
+            if any(isinstance(r, tuple) and r and r[0] == 'ret' for r in (r1, r2)):
+                raise HardUnsupported('an early return depends on data read from the device / on the register accessed')
             if len(self.acts) + len(self.hal_ops) != n_acts or self.changed(snap, env):
                 raise Unsupported('bus traffic or recorded configuration depends on data read from the device')
             self.restore(snap, env)
@@ -1637,7 +1653,7 @@ class Interp:
         if key in m['enumenc'] and len(args) == 1 and isinstance(args[0], Enum) and args[0].tree[0] == 'c':
             fn, partial, rty = m['enumenc'][key]
             if partial:
-                raise Unsupported('partial encoder with a constant argument')
+                return Byte(r.ty, '(%s %s %s).getD %s' % (fn, paren(r.e), self.lean_variant(rty, args[0].tree[1]), paren(r.e)))
             return Byte(r.ty, '%s %s %s' % (fn, paren(r.e), self.lean_variant(rty, args[0].tree[1])))
         raise Unsupported('register method %s::%s' % key)
 
@@ -1679,7 +1695,11 @@ def load_maps(leandir, srcdir):
     for m in re.finditer(r'^inductive (\w+)((?:\s*\|\s*\w+)+)\s*deriving', basic, re.M):
         lean_enums[m.group(1)] = re.findall(r'\|\s*(\w+)', m.group(2))
     pair = {'DataSource': 'DataSource', 'OutputDataRate': 'ODR', 'InterruptPins': 'IntPins', 'PowerMode': 'PowerMode',
-            'Scale': 'Scale', 'OversampleRate': 'OSR'}
+            'Scale': 'Scale', 'OversampleRate': 'OSR', 'Filter1Bandwidth': 'Filt1Bw', 'AutoLPTimeoutTrigger': 'AutoLpTrig',
+            'WakeupIntRefMode': 'WkupRefMode', 'OrientIntRefMode': 'OrientRefMode', 'ActChgObsPeriod': 'ObsPeriod',
+            'TapSensitivity': 'TapSens', 'Axis': 'Axis', 'MinTapDuration': 'MinTapDur', 'DoubleTapDuration': 'DTapDur',
+            'MaxTapDuration': 'MaxTapDur', 'GenIntRefMode': 'GenRefMode', 'Hysteresis': 'Hyst',
+            'GenIntCriterionMode': 'Criterion', 'GenIntLogicMode': 'Logic'}
     for r, l in pair.items():
         if r in rust_enums and l in lean_enums and len(rust_enums[r]) == len(lean_enums[l]):
             maps['enums'][r] = (l, dict(zip(rust_enums[r], lean_enums[l])))
@@ -2038,6 +2058,123 @@ def main_transport(srcdir, leandir):
     print('end Bma400')
 
 
+# (builder, Rust setter) -> constructor of the model's setter type (Builders.lean); only setters whose
+# arguments are bools / plain enums are translated (numeric ones are tied by the differential check)
+SETTER_CTOR = {
+    'acc': {'with_power_mode': 'powerMode', 'with_osr_lp': 'osrLp', 'with_filt1_bw': 'filt1Bw', 'with_odr': 'odr',
+            'with_osr': 'osr', 'with_scale': 'scale', 'with_reg_dta_src': 'regDtaSrc'},
+    'int': {'with_dta_rdy_int': 'dtaRdy', 'with_fwm_int': 'fwm', 'with_ffull_int': 'ffull', 'with_gen2_int': 'gen2',
+            'with_gen1_int': 'gen1', 'with_orientch_int': 'orientch', 'with_latch_int': 'latch', 'with_actch_int': 'actch',
+            'with_d_tap_int': 'dTap', 'with_s_tap_int': 'sTap', 'with_step_int': 'step'},
+    'pin': {'with_drdy': 'drdy', 'with_fifo_wm': 'fifoWm', 'with_ffull': 'ffull', 'with_ieng_ovrrn': 'iengOvrrn',
+            'with_gen2': 'gen2', 'with_gen1': 'gen1', 'with_orientch': 'orientch', 'with_wkup': 'wkup', 'with_actch': 'actch',
+            'with_tap': 'tap', 'with_step': 'step'},
+    'fifo': {'with_read_disabled': 'readDisabled', 'with_axes': 'axes', 'with_8bit_mode': 'eightBit', 'with_src': 'src',
+             'with_send_time_on_empty': 'sendTimeOnEmpty', 'with_stop_on_full': 'stopOnFull', 'with_auto_flush': 'autoFlush'},
+    'alp': {'with_auto_lp_trigger': 'trigger', 'with_gen1_int_trigger': 'gen1Trig', 'with_drdy_trigger': 'drdyTrig'},
+    'awk': {'with_periodic_wakeup': 'periodic', 'with_activity_int': 'activityInt'},
+    'wkup': {'with_ref_mode': 'refMode', 'with_axes': 'axes'},
+    'ori': {'with_axes': 'axes', 'with_src': 'src', 'with_ref_mode': 'refMode'},
+    'gen1': {'with_axes': 'axes', 'with_src': 'src', 'with_ref_mode': 'refMode', 'with_hysteresis': 'hysteresis',
+             'with_criterion_mode': 'criterion', 'with_logic_mode': 'logic'},
+    'act': {'with_axes': 'axes', 'with_src': 'src', 'with_obs_period': 'obsPeriod'},
+    'tap': {'with_axis': 'axis', 'with_sensitivity': 'sensitivity', 'with_min_duration_btn_taps': 'minDur',
+            'with_max_double_tap_window': 'dtapDur', 'with_max_tap_duration': 'maxDur'},
+}
+SETTER_CTOR['gen2'] = SETTER_CTOR['gen1']
+SETTER_TYPE = {'acc': 'AccSetter', 'int': 'IntSetter', 'pin': 'PinSetter', 'fifo': 'FifoSetter', 'alp': 'AlpSetter',
+               'awk': 'AwkSetter', 'wkup': 'WkupSetter', 'ori': 'OriSetter', 'gen1': 'GenSetter', 'gen2': 'GenSetter',
+               'act': 'ActSetter', 'tap': 'TapSetter'}
+
+
+def run_setter(items, regaddr, maps, spec, method, args):
+    lname, _, bty, blockty, cfgfield, variant = spec
+    it = Interp(items, regaddr, maps)
+    dev_cfg = it.struct_ref('Config', ('dev',), lambda t, a: 'sh 0x%02X' % a)
+    blk = it.struct_ref(blockty, ('rq',), lambda t, a: 'r 0x%02X' % a)
+    cfgv = Var('GenIntConfig', variant, blk) if variant else blk
+    it.items['struct']['__Builder'] = [('config', ['__cfg']), ('device', ['__Device'])]
+    it.items['struct']['__Device'] = [('config', ['Config']), ('interface', ['__Iface'])]
+    it.store[('self', 'config')] = cfgv
+    it.store[('self', 'device')] = Ref('__Device', ('self', 'device'))
+    it.store[('self', 'device', 'config')] = dev_cfg
+    it.store[('self', 'device', 'interface')] = Iface()
+    it.items['impl']['__Builder'] = items['impl'].get(bty, {})
+    before = {p_: v.e for p_, v in it.store.items() if p_[0] == 'rq' and isinstance(v, Byte)}
+    selfv = Ref('__Builder', ('self',))
+    r = it.run_fn('__Builder', method, selfv, args)
+    if not (isinstance(r, Ref) and r.path == ('self',)):
+        raise Unsupported('%s::%s does not return the builder' % (bty, method))
+    if it.writes or it.acts or it.lets:
+        raise Unsupported('%s::%s has bus traffic / merged values' % (bty, method))
+    for p_, v in it.store.items():
+        if p_[0] == 'dev' and isinstance(v, Byte) and not v.e.startswith('sh 0x'):
+            raise HardUnsupported('%s::%s changes the recorded configuration' % (bty, method))
+    out = 'r'
+    for p_ in sorted(before, key=lambda q: regaddr[it.store[q].ty]):
+        v = it.store[p_]
+        if v.e != before[p_]:
+            out = '(%s).set 0x%02X (%s)' % (out, regaddr[v.ty], v.e)
+    return out
+
+
+def main_setters(srcdir, leandir):
+    items = parse_all(srcdir)
+    regaddr = load_regaddr(srcdir)
+    maps = load_maps(leandir, srcdir)
+    defs, thms = [], []
+    for spec in BUILDERS:
+        lname, bty = spec[0], spec[2]
+        for method, ctor in SETTER_CTOR[lname].items():
+            sig = items.get('sigs', {}).get(bty, {}).get(method)
+            if sig is None:
+                raise Unsupported('setter %s::%s not found' % (bty, method))
+            ptys = [t for n, t in sig if n != 'self']
+            binders, args, enum_pos = [], [], None
+            for k, t in enumerate(ptys):
+                tn = t[-1] if t else ''
+                if tn == 'bool':
+                    binders.append('(x%d : Bool)' % k)
+                    args.append(Bool('x%d' % k))
+                elif tn in maps['enums'] and enum_pos is None:
+                    enum_pos = k
+                    args.append(None)
+                else:
+                    raise Unsupported('argument type %s of %s::%s' % (tn, bty, method))
+            name = '%s_%s' % (lname, method)
+            if enum_pos is None:
+                body = run_setter(copy.deepcopy(items), regaddr, maps, spec, method, args)
+                defs.append('def %s (sh r : Regs) %s : Regs :=\n  %s' % (name, ' '.join(binders), body))
+            else:
+                rty = ptys[enum_pos][-1]
+                lty, vmap = maps['enums'][rty]
+                arms = []
+                for rv, lv in vmap.items():
+                    a2 = list(args)
+                    a2[enum_pos] = Enum(rty, ('c', rv))
+                    arms.append('  | .%s => %s' % (lv, run_setter(copy.deepcopy(items), regaddr, maps, spec, method, a2)))
+                defs.append('def %s (sh r : Regs) %s : %s → Regs\n%s' % (name, ' '.join(binders), lty, '\n'.join(arms)))
+            thms.append((lname, method, ctor, len(ptys), enum_pos))
+    print('/- GENERATED by tools/gen_builders.py --setters from src/config/*.rs on every check run.  Do not edit.')
+    print('   The effect of every builder SETTER with bool / enum arguments on the builder\'s copy `r` (`sh`: the recorded')
+    print('   configuration, which no setter may read or change), by symbolic execution; enum arguments are enumerated. -/')
+    print('import Bma400.Builders')
+    print('set_option linter.unusedVariables false')
+    print('namespace Bma400')
+    print('namespace Generated')
+    print('namespace Set')
+    print('open R')
+    print()
+    print('\n\n'.join(defs))
+    print()
+    print('def count : Nat := %d' % len(defs))
+    print()
+    print('end Set')
+    print('end Generated')
+    print('end Bma400')
+    return thms
+
+
 def load_regtable(srcdir):
     src = re.sub(r'//[^\n]*', '', open(os.path.join(srcdir, 'registers.rs')).read())
     addr, dflt, rd = {}, {}, {}
@@ -2080,6 +2217,33 @@ def main_api(srcdir, leandir):
 
 
 def main():
+    if len(sys.argv) > 3 and sys.argv[3] in ('--setters', '--setters-theorems'):
+        try:
+            if sys.argv[3] == '--setters':
+                main_setters(sys.argv[1], sys.argv[2])
+                return
+            import io, contextlib
+            buf = io.StringIO()
+            with contextlib.redirect_stdout(buf):
+                thms = main_setters(sys.argv[1], sys.argv[2])
+            for lname, method, ctor, n, epos in thms:
+                xs = ['x%d' % k for k in range(n) if k != epos]
+                vs = ['x%d' % k if k != epos else 'v' for k in range(n)]
+                gen_args = ' '.join(xs + (['v'] if epos is not None else []))
+                bind = ' '.join('(%s : Bool)' % x for x in xs)
+                ty = SETTER_TYPE[lname]
+                ap = ('GenSetter.apply .g1' if lname == 'gen1' else 'GenSetter.apply .g2' if lname == 'gen2' else ty + '.apply')
+                vb = ' (v)' if epos is not None else ''
+                print('theorem set_%s_%s (sh r : Regs) %s%s :\n    %s r (.%s %s) = Set.%s_%s sh r %s := by\n  %s Set.%s_%s'
+                      % (lname, method, bind, vb, ap, ctor, ' '.join(vs), lname, method, gen_args,
+                         'setter_cases v' if epos is not None else 'setter_tac', lname, method))
+            return
+        except (Unsupported,) as ex:
+            sys.stderr.write('outside the translatable subset: %s\n' % ex)
+            sys.exit(1)
+        except Exception as ex:
+            sys.stderr.write('outside the translatable subset: %s: %s\n' % (type(ex).__name__, ex))
+            sys.exit(1)
     if len(sys.argv) > 3 and sys.argv[3] == '--transport':
         try:
             return main_transport(sys.argv[1], sys.argv[2])
